@@ -102,6 +102,17 @@ def run_companion(repo, companion_file, tests, seed=1, cases=None, timeout=420, 
             m = re.search(r"memory allocation of \d+ bytes failed", out)
             res["witnesses"].append(json.dumps({"kind": "C15", "what": "the process aborted while the real code ran (abort / allocation failure)",
                                                 "detail": (m.group(0) + "; " if m else "") + (stages[-1] if stages else "stage unknown")}))
+        if not res["witnesses"] and "test result: FAILED" in out:
+            # a companion test died on a panic that is NOT one of its own WITNESS panics: if the panic comes from the
+            # repository's code (not from the companion file or a dependency), the real code panicked while being driven
+            lines = out.split("\n")
+            for i, ln in enumerate(lines):
+                mp = re.search(r"panicked at ((?:bitar/)?src/[^:]+:\d+:\d+):", ln)
+                if mp and "tests/verif_" not in ln:
+                    msg = lines[i + 1].strip() if i + 1 < len(lines) else ""
+                    res["witnesses"].append(json.dumps({"kind": "PANIC", "what": "the real code panicked while the companion drove it",
+                                                        "detail": "%s: %s" % (mp.group(1), msg[:300])}))
+                    break
         if res["witnesses"]:
             res["status"] = "witness"
         elif "test result: ok" in out and p.returncode == 0:
@@ -116,6 +127,7 @@ def setup(repo):
     rc = 0
     for f, tests, pkg in [("companions/chunker_companion.rs", ["c09_large_window_agreement"], "bitar"),
                           ("companions/archive_companion.rs", ["c07_range_requests"], "bitar"),
+                          ("companions/reader_companion.rs", ["c08_local_reader"], "bitar"),
                           ("companions/cli_companion.rs", ["c04_cli_clone"], "bita")]:
         r = run_companion(repo, f, tests, timeout=1800, package=pkg)
         print("native companion setup %s: %s (%d cases, %.0fs)" % (f, r["status"], r["cases"], r["wall_s"]))
